@@ -13,6 +13,7 @@ from .world import COMPONENTS, snap, snap_down
 LABELS = [None, None, "", "step", "mix 1", "Transfer µL", "two\nlines", " padded label ", "L" * 40, "100%", "add {M9}", "{}", "50 % (v/v) }", "3 LVH steps", "prep (2 LVH steps)", "t", "st", "a"]
 LIQUID_CLASSES = ["", "Water_DispZmax", "lc 1", "Ethanol"]
 WASHES = [1, 1, 2, 3, 4, "flush", "reuse"]
+WASHES_DEPRECATED = WASHES + WASHES + [None]  # None: deprecated, documented to behave like "reuse"
 PARTS = ["auto", "auto", "source", "destination"]
 
 
@@ -363,7 +364,7 @@ class Gen:
         if "wnp" in sflags and sflags["wnp"]:
             op["swnp"] = True
         if rng.random() < 0.8:
-            op["wash"] = rng.choice(WASHES)
+            op["wash"] = rng.choice(WASHES if self.cfg.get("no_deprecated_wash") else WASHES_DEPRECATED)
         if rng.random() < 0.6:
             op["part"] = rng.choice(PARTS)
         # volumes: order-independent sufficient condition (adds and removes budgeted separately)
@@ -574,7 +575,7 @@ class Gen:
         li = rng.randrange(len(self.labs))
         geo = self.geos[li]
         choice = rng.choice(["badwell", "semicolon_label", "semicolon_lc", "badtip", "lenmismatch", "badpart",
-                             "badwash", "huge", "negative", "nan", "dist_nontrough", "dist_col", "longlabel"])
+                             "badwash", "huge", "negative", "nan", "dist_nontrough", "dist_col", "longlabel", "comps_len"])
         base = self.gen_transfer(view, "ok") if rng.random() < 0.5 else \
             self.gen_addremove(view, rng.choice(["aspirate", "dispense"]), intent="ok")
         op = base
@@ -646,4 +647,12 @@ class Gen:
             op = d
         elif choice == "longlabel":
             op.setdefault("kw", {})["rack_id"] = "x" * 33
+        elif choice == "comps_len":
+            # compositions that do not pair up with the wells (one composition for several wells, ...)
+            if op["op"] != "dispense":
+                op = self.gen_addremove(view, "dispense", intent="ok")
+                op["intent"] = "reject.invalid:" + choice
+            from .geom import flatten_f
+            n = len(flatten_f(op["wells"]))
+            op["comps"] = [enc(dyadic_composition(rng))] * (1 if n != 1 else 2)
         return op
